@@ -16,6 +16,40 @@ build() {
     exit 2
   fi
 }
+# Coverage-guided tier (thorough only, not load-bearing): libFuzzer on the same oracles.
+# 8 instances x FUZZ_RUNS executions, fresh corpora under target/, seeds derived from
+# VERIF_SEED. A violation is reported by the target itself (replay file + VIOLATION line).
+fuzz_tier() {
+  local id="$1" seed="${VERIF_SEED:-20261002}" runs="${FUZZ_RUNS:-150000}" n=8 i
+  local stats="target/fuzz_stats_${id}.json"
+  rm -f "$stats"
+  if ! ( cd fuzz && cargo +nightly fuzz build -s none > ../target/.fuzz_build.log 2>&1 ); then
+    echo "fuzz tier skipped: cargo fuzz build failed (see target/.fuzz_build.log)" >&2
+    echo "{\"skipped\": \"cargo fuzz build failed\"}" > "$stats"
+    return 0
+  fi
+  local bin="target/x86_64-unknown-linux-gnu/release/seq"
+  rm -rf target/fuzz_work; mkdir -p target/fuzz_work
+  for i in $(seq 1 $n); do
+    mkdir -p "target/fuzz_work/corpus$i"
+    ( ARXV_FUZZ_PROPS="$id" "$bin" "target/fuzz_work/corpus$i" -runs="$runs" -seed=$((seed + i)) -max_len=256 -len_control=0 \
+        -rss_limit_mb=6000 -artifact_prefix="target/fuzz_work/" -print_final_stats=1 > "target/fuzz_work/out$i.txt" 2>&1 ) &
+  done
+  wait
+  local viol=0 execs=0 cov=0 e c
+  for i in $(seq 1 $n); do
+    if grep -q "^VIOLATION" "target/fuzz_work/out$i.txt"; then
+      grep -E "^VIOLATION|^\[$id:" "target/fuzz_work/out$i.txt" | head -4
+      viol=1
+    fi
+    e=$(grep -E "stat::number_of_executed_units" "target/fuzz_work/out$i.txt" | awk '{print $2}'); execs=$((execs + ${e:-0}))
+    c=$(grep -E "cov: [0-9]+" "target/fuzz_work/out$i.txt" | tail -1 | sed -E 's/.*cov: ([0-9]+).*/\1/'); [ "${c:-0}" -gt "$cov" ] && cov=$c
+  done
+  echo "{\"engine\": \"libFuzzer (cargo-fuzz, sanitizer none)\", \"instances\": $n, \"executions\": $execs, \"max_edge_coverage\": $cov, \"oracle\": \"$id\", \"violation_found\": $viol}" > "$stats"
+  echo "[$id] fuzz tier: $execs executions in $n instances, edge coverage $cov, violation=$viol" >&2
+  rm -rf target/fuzz_work/corpus*
+  return $viol
+}
 mkdir -p target
 case "$1" in
   build) build; exit 0 ;;
@@ -23,6 +57,15 @@ case "$1" in
   selftest) build; exec target/release/arxv selftest ;;
   *)
     build
-    exec target/release/arxv check --property "$1" --tier "${2:-${VERIF_TIER:-quick}}" "${@:3}"
+    ID="$1"; TIER="${2:-${VERIF_TIER:-quick}}"
+    FUZZ_RC=0
+    rm -f "target/fuzz_stats_${ID}.json"
+    if [ "$TIER" = thorough ]; then
+      case "$ID" in C01|C03|C05|C06|C14|C17) fuzz_tier "$ID"; FUZZ_RC=$? ;; esac
+    fi
+    target/release/arxv check --property "$ID" --tier "$TIER" "${@:3}"
+    RC=$?
+    if [ "$FUZZ_RC" = 1 ] && [ "$RC" = 0 ]; then RC=1; fi
+    exit $RC
     ;;
 esac
